@@ -32,7 +32,7 @@ type c11Client struct {
 }
 
 type c11Case struct {
-	Listener    string      `json:"listener"` // plain | tls
+	Listener    string      `json:"listener"` // plain | tls | pp (PROXY protocol, header timeout 5 s)
 	Cap         int         `json:"cap"`
 	Clients     []c11Client `json:"clients"`
 	DrainS      int         `json:"drain_s"`     // shutdown timeout in seconds: 30 is the shipped default, 0 means "no limit"
@@ -42,12 +42,16 @@ type c11Case struct {
 
 func genC11(t *tape.Tape, tier string) any {
 	c := &c11Case{}
-	c.Listener = []string{"plain", "tls"}[t.Pick(3, 2)]
+	c.Listener = []string{"plain", "tls", "pp"}[t.Pick(3, 2, 2)]
 	c.Cap = []int{256 << 10, 2048, 8192}[t.Pick(3, 2, 1)]
-	kinds := []string{"idle", "served-then-idle", "slow-origin", "mid-head", "tunnel", "slow-reader", "late-request", "late-connect", "vanish", "drip-reader"}
+	kinds := []string{"idle", "served-then-idle", "slow-origin", "mid-head", "tunnel", "slow-reader", "late-request", "late-connect", "vanish", "drip-reader", "late-pp-header"}
 	n := 1 + t.Pick(2, 3, 3, 2, 1, 1)
 	for i := 0; i < n; i++ {
-		cl := c11Client{Kind: kinds[t.Pick(2, 3, 5, 2, 2, 3, 4, 2, 2, 3)]}
+		wpp := 0
+		if c.Listener == "pp" {
+			wpp = 5
+		}
+		cl := c11Client{Kind: kinds[t.Pick(2, 3, 5, 2, 2, 3, 4, 2, 2, 3, wpp)]}
 		cl.DelayMs = []int{0, 100, 5000, 19000, 29000, 45000, 120000}[t.Pick(2, 3, 3, 2, 1, 2, 1)]
 		cl.Body = []int{10, 3000, 40000, 200000}[t.Pick(3, 2, 2, 1)]
 		cl.K = 1 + t.Intn(40)
@@ -176,6 +180,9 @@ func runC11(env *core.Env, ci any) {
 				cfg.Protocol = forwarder.HTTPSScheme
 				cfg.CertFile, cfg.KeyFile = simtls.DataURI(cp), simtls.DataURI(kp)
 			}
+			if c.Listener == "pp" {
+				cfg.ProxyProtocolConfig = &forwarder.ProxyProtocolConfig{ReadHeaderTimeout: 5 * time.Second}
+			}
 		},
 	})
 	if err != nil {
@@ -222,6 +229,9 @@ func runC11(env *core.Env, ci any) {
 				return nil, fmt.Errorf("handshake: %w", err)
 			}
 			return tc, nil
+		}
+		if c.Listener == "pp" && c.Clients[i].Kind != "late-pp-header" {
+			fmt.Fprintf(raw, "PROXY TCP4 198.51.100.%d 203.0.113.9 %d 3128\r\n", 10+i, 40000+i)
 		}
 		return raw, nil
 	}
@@ -343,6 +353,20 @@ func runC11(env *core.Env, ci any) {
 				}
 				conn.Write([]byte("ping"))
 				untilClosed(conn, br, r)
+			case "late-pp-header":
+				// connected before the shutdown request, but the PROXY header (and the request) come only afterwards:
+				// an accepted connection that must be closed without service
+				<-shutdownCh
+				time.Sleep(time.Duration(cl.K) * 10 * time.Millisecond)
+				r.reqSentAt, r.reqSentSeq = now(), nextSeq()
+				fmt.Fprintf(conn, "PROXY TCP4 198.51.100.%d 203.0.113.9 %d 3128\r\n", 10+i, 40000+i)
+				m, err := get("-late")
+				if err == nil {
+					r.respDone, r.status = true, m.Status
+					untilClosed(conn, br, r)
+				} else {
+					r.respErr, r.closedAt = err, now()
+				}
 			case "late-request":
 				if m, err := get("-first"); err != nil || m.Status != 200 {
 					r.note = fmt.Sprintf("first exchange: %v", err)
@@ -389,9 +413,9 @@ func runC11(env *core.Env, ci any) {
 			var lateLogged *c11OriginLog
 			for k := range olog {
 				if olog[k].tok == tok {
-					if r.kind == "late-request" || r.kind == "late-connect" {
+					if r.kind == "late-request" || r.kind == "late-connect" || r.kind == "late-pp-header" {
 						// the late request is the second log entry of a late-request client, the only one of a late-connect client
-						if r.kind == "late-connect" || logged != nil {
+						if r.kind == "late-connect" || r.kind == "late-pp-header" || logged != nil {
 							lateLogged = &olog[k]
 						} else {
 							logged = &olog[k]
@@ -419,7 +443,13 @@ func runC11(env *core.Env, ci any) {
 				if logged != nil && logged.seq > shutdownSeq && r.reqSentSeq > shutdownSeq {
 					env.Fail("shutdown-admitted-new-request", f, "request %s was first sent at %v, after the shutdown request (%v), and still reached the origin at %v", tok, r.reqSentAt, shutdownAt, logged.at)
 				}
-			case "late-request", "late-connect":
+			case "late-request", "late-connect", "late-pp-header":
+				if r.kind == "late-pp-header" && r.dialErr == nil && r.respDone && r.status == 200 {
+					env.Fail("shutdown-admitted-new-request", f, "a connection whose PROXY header and request arrived only after the shutdown request was served (200)")
+				}
+				if r.kind == "late-pp-header" && r.dialErr == nil && r.closedAt < 0 && !r.respDone && r.respErr == nil {
+					env.Fail("shutdown-conn-left-open", f, "a connection that was waiting for its PROXY header when shutdown began was never closed")
+				}
 				if lateLogged != nil {
 					env.Fail("shutdown-admitted-new-request", f, "request %s-late was first sent at %v, after the shutdown request (%v), and still reached the origin at %v", tok, r.reqSentAt, shutdownAt, lateLogged.at)
 				}
